@@ -182,6 +182,10 @@ func gsSlots(places []placement) (slots map[string]string, ok bool) {
 			if _, err := strconv.Atoi(n); err == nil {
 				slots["intDefault"], slots["intMax"] = n, n
 			}
+			// the integer-typed validations (int64 fields of the spec): lengths and item counts
+			if v, err := strconv.ParseInt(n, 10, 64); err == nil && v >= 0 {
+				slots["lenMax"], slots["itemsMax"] = n, n
+			}
 		case "g-opyaml-num":
 			n := string(vals[0].Num)
 			for _, key := range []string{"opNumMax", "opNumDefault", "opNumExt"} {
@@ -255,6 +259,14 @@ func gsSource(pkg string, slots map[string]string) string {
 	w("\t// the count\n\t//\n")
 	b.WriteString(opt("\t", "default", "intDefault") + opt("\t", "maximum", "intMax"))
 	w("\tCount int64 `json:\"count\"`\n\n")
+	if _, ok := slots["lenMax"]; ok {
+		w("\t// the label\n\t//\n")
+		b.WriteString(opt("\t", "max length", "lenMax"))
+		w("\tLabel string `json:\"label\"`\n\n")
+		w("\t// the parts\n\t//\n")
+		b.WriteString(opt("\t", "max items", "itemsMax"))
+		w("\tParts []string `json:\"parts\"`\n\n")
+	}
 	if t, ok := slots["tag"]; ok {
 		for i, q := range strings.Split(t, "\x00") {
 			w("\t// keyed by a scalar\n\tKeyed%d string `json:%s`\n", i, q)
